@@ -8,6 +8,7 @@ import SltVerif.Include
 import SltVerif.Update
 import SltVerif.Subst
 import SltVerif.Cli
+import SltVerif.Extern
 import Driver.Codec
 import Driver.Db
 namespace Drv
@@ -455,6 +456,52 @@ def opSerial : Rd String := do
     | .ok => "ok" | .err => "err" | .skipped => "skipped" | .cancelled => "cancelled"
   pure (st.results.foldl (fun acc r => acc ++ " " ++ show1 r) s!"exit={if exitOk st then 0 else 1}")
 
+/-! ### external-engine driver -/
+
+structure FrStep where
+  sql : Str
+  kind : String
+  chunks : List Bytes
+
+def encReply : Reply → String
+  | .rows rows =>
+    rows.foldl (fun acc row =>
+      row.foldl (fun a v => a ++ " " ++ hxBytes v) (acc ++ s!" {row.length}")) s!"rows {rows.length}"
+  | .err m => s!"sqlerr {hxBytes m}"
+
+/-- the byte feed as the calls see it: the chunks of step k become available only after request k
+    has been sent (lock-step); a truncated reply is followed by end-of-file -/
+def opFrame : Rd String := do
+  let steps ← listOf (do
+    let sql ← str
+    let kind ← tok
+    let chunks ← listOf bytes
+    pure ({ sql, kind, chunks } : FrStep))
+  -- run the calls one by one, feeding each step's chunks when its request is made
+  let rec go (st : FrState) (closed exited : Bool) (todo : List FrStep) (acc : List String)
+      (reqs : List String) (fuel : Nat) : List String × List String × Bool :=
+    match fuel, todo with
+    | 0, _ => (acc, reqs, closed)
+    | _, [] => (acc, reqs, closed)
+    | fuel + 1, s :: rest =>
+      -- an engine that closed only its output still reads (and logs) requests; one that exited does not
+      let reqs' := if exited then reqs else reqs ++ [hxBytes (encodeRequest (utf8 s.sql))]
+      let closes := closed || s.kind == "partial-close" || s.kind == "partial-exit"
+      let exits := exited || s.kind == "partial-exit"
+      let fd : Feed := { chunks := if closed then [] else s.chunks, closes := closes }
+      let r := pollNext (2 * fd.chunks.length + 6) st fd
+      match r.1 with
+      | .reply rep => go r.2.1 closes exits rest (acc ++ [encReply rep]) reqs' fuel
+      | .failed => go r.2.1 closes exits rest (acc ++ ["fail"]) reqs' fuel
+      | .pending => (acc ++ ["timeout"], reqs', closes)
+  let (results, reqs, closed) := go {} false false steps [] [] (steps.length + 1)
+  let exited := steps.any (fun s => s.kind == "partial-exit")
+  let _ := closed
+  let callsS := results.foldl (fun acc r => acc ++ " ; " ++ r) s!"calls {results.length}"
+  let reqsS := reqs.foldl (fun acc r => acc ++ " " ++ r) s!"reqs {reqs.length}"
+  let _ := exited
+  pure s!"{callsS} ;; {reqsS} ;; eof=1 shutdown=1"
+
 def opSip : Rd String := do
   let p ← str
   pure (toString (pathHash p))
@@ -484,6 +531,7 @@ def dispatchOp (line : String) : String :=
       | "part" => opPart.run rest
       | "partcfg" => opPartCfg.run rest
       | "sip" => opSip.run rest
+      | "frame" => opFrame.run rest
       | "testdir" => (do let _ ← nat; pure "distinct=1 same=1 exist=1 gone=1 par_ok=1 par_db=1 par_same=1 par_distinct=1 par_gone=1 parent_alive=1" : Rd String).run rest
       | "climon" => opCliMon.run rest
       | "serial" => opSerial.run rest
